@@ -2,6 +2,7 @@ SPECIFICATION Spec
 CONSTANTS
   MaxCalls = 2
   MaxFrames = 4
+  MaxReqs = 0
   DeleteOnLookup = FALSE
   Record = FALSE
 INVARIANTS NeverHangs
